@@ -94,6 +94,36 @@ def audit_names(prop):
     return [l.split()[2] for l in open(path) if l.startswith("#print axioms ")]
 
 
+def observed_distribution(cases, impl):
+    """what the generated cases actually exercised on the real crates (generator quality bounds what the
+    correspondence sees)"""
+    import collections
+    c = collections.Counter()
+    for case in cases:
+        io = impl.get((case.kind, case.cid), [])
+        c["cases"] += 1
+        c["output_lines"] += len(io)
+        if case.kind == "build":
+            ex = sum(1 for l in io if l.startswith("ev execute_start"))
+            c["executions"] += ex
+            c["sessions"] += sum(1 for l in io if l == "op session")
+            c["requires_without_any_execution"] += sum(1 for i, l in enumerate(io) if l.startswith("op req") and not any(
+                x.startswith("ev execute_start") for x in io[i + 1:i + 400] if not x.startswith("op ")) )
+            for l in io:
+                if l.startswith("abort "): c["abort_" + l[6:].split(":")[0]] += 1
+                elif l.startswith("ev ") and l.endswith(" inconsistent"): c["inconsistent_checks"] += 1
+                elif l.startswith("ev ") and " error(" in l: c["checker_errors"] += 1
+                elif l.startswith("ev schedule_task"): c["scheduled"] += 1
+                elif l.startswith("ev check_task_end") and l.endswith(" consistent"): c["consistent_require_checks"] += 1
+                elif l.startswith("ev write_end"): c["writes"] += 1
+                elif l.startswith("op bu"): c["bottom_up_builds"] += 1
+        elif case.kind == "graph":
+            for l in io:
+                if l.startswith("op addedge"): c["addedge_" + l.rsplit("-> ", 1)[1]] += 1
+                elif l.startswith("op rm"): c[l.split(" ")[1]] += 1
+    return dict(c)
+
+
 def replay_path(prop, seed, n):
     return os.path.join(V.VERIF, "replays", f"{prop}-{seed}-{n}.json")
 
@@ -241,6 +271,7 @@ def main():
             known_lines.append(line)
         else:
             notes.append(f"known finding {k['id']} no longer reproduces")
+    stats["observed"] = observed_distribution(cases, impl)
     samples = [dict(case=c.body[:40], implementation_output_head=impl.get((c.kind, c.cid), [])[:12]) for c in cases[:2]]
     return finish(prop, tier, seed, t0, cfg, thms, cases, stats, violations, known_lines, notes, leanchecker,
                   len(dis), len(ora), samples, impl)
